@@ -13,7 +13,7 @@ import struct
 from fractions import Fraction
 
 from .. import gen
-from ..common import cq, clist, cnat, cbool, coq_eval
+from ..common import cq, clist, cnat, cbool, safe_coq_eval
 from ..impl import Impl
 
 IMPORTS = ['Base.Util', 'Model.Modularity', 'Model.Louvain']
@@ -303,7 +303,10 @@ def run_metric(ctx, scratch, rng, quick):
         exprs.append('show_mod (get_modularity %s %s %s %s %s)' % (
             wmat(c['nr'], c['nc'], c['triples']), clist(c['labels'], cnat), lc,
             'Degree' if c['weights'] == 'degree' else 'Uniform', cq(c['gamma'])))
-    vals = coq_eval('c06mod', IMPORTS, exprs, prelude=PRELUDE, shard=300)
+    vals = safe_coq_eval(ctx, 'c06mod', IMPORTS, exprs, prelude=PRELUDE, shard=300)
+    if vals is None:
+        # model dead (recorded in ctx.proof_broken): the implementation is still judged by the textbook double sum
+        vals = [None] * len(cases)
     # ---- implementation + oracle
     with Impl(scratch) as impl:
         for k, (c, v) in enumerate(zip(cases, vals)):
@@ -314,14 +317,16 @@ def run_metric(ctx, scratch, rng, quick):
             ctx.count('metric:' + c['fam'], ('modularity', args), bool(c['triples']) and not c['malformed'])
             fields = dict(family=c['fam'], weights=c['weights'], resolution=float(c['gamma']),
                           bipartite=c['nr'] != c['nc'], return_all=c['return_all'])
-            if v[0] == 'MErr':
+            if v is None and c['malformed']:
+                continue      # which error a malformed input raises is stated by the model only
+            if v is not None and v[0] == 'MErr':
                 model = {'err': {'MValueError': 'ValueError'}.get(v[1][0], v[1][0])}
                 got = {'err': r.get('err')} if 'err' in r else r
                 if got != model:
                     ctx.violation('get_modularity', 'error behaviour differs from the model', case=args,
                                   expected=model, observed=r, oracle='metric_error', **fields)
                 continue
-            mod, fit, div = (frac(x) for x in v[1])
+            mod, fit, div = (frac(x) for x in v[1]) if v is not None else (None, None, None)
             # independent oracle (textbook double sum)
             if c['nr'] != c['nc']:
                 n, T = block(c['nr'], c['nc'], c['triples'], directed=False)
@@ -329,6 +334,8 @@ def run_metric(ctx, scratch, rng, quick):
             else:
                 n, T, lab = c['nr'], c['triples'], c['labels']
             omod, ofit, odiv = textbook_modularity(n, T, lab, c['gamma'], c['weights'])
+            if v is None:
+                mod, fit, div = omod, ofit, odiv
             if (omod, ofit, odiv) != (mod, fit, div):
                 ctx.corr_broken.append(dict(kind='model_vs_textbook', case=args))
                 ctx.violation('get_modularity', 'exact model and the independent textbook evaluation disagree',
@@ -498,7 +505,9 @@ def run_optimisers(ctx, scratch, rng, quick):
                 exprs.append('show_fit (leiden_fit 80 400 %s (fun count _ _ => nth (count - 1) %s []) %s)' % (
                     common, answers, tail))
             sel.append((k, algo))
-    vals = coq_eval('c06fit', IMPORTS, exprs, prelude=PRELUDE, shard=12, timeout=900)
+    # (pure model-vs-code comparison: skipped, and recorded in ctx.proof_broken, when the model no longer evaluates; the
+    # objective / log / components oracles above have already judged every returned partition)
+    vals = safe_coq_eval(ctx, 'c06fit', IMPORTS, exprs, prelude=PRELUDE, shard=12, timeout=900) or []
     stats = {a: dict(compared=0, agree=0, margin_dropped=0, tie_dropped=0, model_out_of_fuel=0) for a in ('louvain', 'leiden')}
     for (k, algo), v in zip(sel, vals):
         c = cases[k]
